@@ -93,5 +93,11 @@ func (u *URL) UnmarshalJSON(b []byte) (err error) {
 		}
 	}
 
-	return u.UnmarshalText(b[1 : l-1])
+	var s string
+	err = json.Unmarshal(b, &s)
+	if err != nil {
+		return err
+	}
+
+	return u.UnmarshalText([]byte(s))
 }
